@@ -1,7 +1,415 @@
+//! Workspace operations (C17): histories of add / replace / remove / clear / deploy executed on a
+//! real `dmntk_workspace::Workspace::new(None)`, observed after every operation through the
+//! `verif_snapshot` hook and through behavioural probes (`evaluate_invocable`).
+//!
+//! The driver only executes and observes; every judgement is made by the Python reference model
+//! (lib/wsmodel.py). The only predicate computed here is the purely structural
+//! "snapshot is self-consistent" flag used to stop the breadth-first walk from expanding states in
+//! which the indexes no longer describe the list (the oracle recomputes it independently).
+//!
+//! Case fields shared by all modes:
+//!   models : [{"id":..,"xml":..}]                       model alphabet (parsed once, cloned per use)
+//!   probes : [[model_name, invocable_name], ..]          behavioural probes, empty input context
+//! Operation encoding: ["add",k] | ["replace",k] | ["remove",ns,name] | ["clear"] | ["deploy"].
+//! Observation after a step:
+//!   {"r": null | "<error text>", "s": [[[ns,name]..],[ns keys],[name keys],[evaluator keys]],
+//!    "p": [{"ok": "<value text>"} | {"err": "<text>"} ..]}     or {"panic": {...}}
+//!
+//! op "ws", mode "history" (default): {"history":[op..]}            -> {"models":[..], "steps":[obs..]}
+//! op "ws", mode "batch": {"ops":[op..], "histories":[[idx..]..]} -> {"models":[..], "otab":[obs..], "runs":[[obs_id..]..]}
+//!        (observations interned in `otab`; a run shorter than its history ended in a panic observation)
+//! op "ws", mode "enum": {"ops":[op..], "prefix":[idx..], "depth":d} -> {"models":[..], "otab":[obs..],
+//!        "prefix_steps":[obs_id..], "nodes":[ext_len, op_idx, obs_id, ext_len, op_idx, obs_id, ..]}  every extension of
+//!        the prefix by 1..d operations in depth-first pre-order; each node is observed on a FRESH workspace
+//!        by replaying prefix+extension.
+//! op "wsbfs": {"ops":[op..], "max_states":N, "expand_inconsistent":bool} -> {"models":[..], "states":[{"h":[idx..],
+//!        "s":..,"p":..,"t":[probe results after an additional deploy],"consistent":bool,"expanded":bool}],
+//!        "trans":[[from,op_idx,r,to]..], "closed":bool}
+
+use dmntk_feel::context::FeelContext;
+use dmntk_model::model::{Definitions, NamedElement};
+use dmntk_workspace::Workspace;
 use serde_json::{json, Value as J};
-pub fn op_ws(_case: &J) -> J {
-  json!({"harness_error": "not implemented"})
+use std::collections::{HashMap, HashSet, VecDeque};
+use std::panic::{catch_unwind, AssertUnwindSafe};
+
+fn take_panic() -> J {
+  crate::LAST_PANIC.lock().ok().and_then(|mut g| g.take()).unwrap_or(json!({"msg": "<unknown>"}))
 }
-pub fn op_wsbfs(_case: &J) -> J {
-  json!({"harness_error": "not implemented"})
+
+#[derive(Clone)]
+enum Op {
+  Add(usize),
+  Replace(usize),
+  Remove(String, String),
+  Clear,
+  Deploy,
+}
+
+struct Alphabet {
+  defs: Vec<Definitions>,
+  info: Vec<J>,
+  probes: Vec<(String, String)>,
+}
+
+fn parse_op(j: &J, n_models: usize) -> Result<Op, String> {
+  let a = j.as_array().ok_or("operation is not an array")?;
+  let kind = a.get(0).and_then(|v| v.as_str()).unwrap_or("");
+  let idx = |k: usize| -> Result<usize, String> {
+    let i = a.get(k).and_then(|v| v.as_u64()).ok_or("missing model index")? as usize;
+    if i < n_models {
+      Ok(i)
+    } else {
+      Err(format!("model index {} out of range", i))
+    }
+  };
+  let s = |k: usize| -> Result<String, String> { a.get(k).and_then(|v| v.as_str()).map(|x| x.to_string()).ok_or_else(|| "missing string operand".to_string()) };
+  match kind {
+    "add" => Ok(Op::Add(idx(1)?)),
+    "replace" => Ok(Op::Replace(idx(1)?)),
+    "remove" => Ok(Op::Remove(s(1)?, s(2)?)),
+    "clear" => Ok(Op::Clear),
+    "deploy" => Ok(Op::Deploy),
+    other => Err(format!("unknown workspace operation '{}'", other)),
+  }
+}
+
+fn parse_ops(j: Option<&J>, n_models: usize) -> Result<Vec<Op>, String> {
+  let mut out = vec![];
+  if let Some(J::Array(items)) = j {
+    for item in items {
+      out.push(parse_op(item, n_models)?);
+    }
+  }
+  Ok(out)
+}
+
+fn load_alphabet(case: &J) -> Result<Alphabet, String> {
+  let mut defs = vec![];
+  let mut info = vec![];
+  let empty = vec![];
+  for m in case.get("models").and_then(|v| v.as_array()).unwrap_or(&empty) {
+    let id = m.get("id").and_then(|v| v.as_str()).unwrap_or("");
+    let xml = m.get("xml").and_then(|v| v.as_str()).ok_or("model without xml")?;
+    let d = match catch_unwind(|| dmntk_model::parse(xml)) {
+      Ok(Ok(d)) => d,
+      Ok(Err(e)) => return Err(format!("model {} of the alphabet does not parse: {}", id, e)),
+      Err(_) => return Err(format!("model {} of the alphabet panics in parse: {}", id, take_panic())),
+    };
+    let built = catch_unwind(AssertUnwindSafe(|| dmntk_model_evaluator::ModelEvaluator::new(&d)));
+    let (builds, build_err) = match built {
+      Ok(Ok(_)) => (true, J::Null),
+      Ok(Err(e)) => (false, json!(e.to_string())),
+      Err(_) => (false, json!({ "panic": take_panic() })),
+    };
+    info.push(json!({"id": id, "ns": d.namespace(), "name": d.name(), "builds": builds, "build_err": build_err}));
+    defs.push(d);
+  }
+  let mut probes = vec![];
+  for p in case.get("probes").and_then(|v| v.as_array()).unwrap_or(&empty) {
+    let m = p.get(0).and_then(|v| v.as_str()).ok_or("bad probe")?;
+    let i = p.get(1).and_then(|v| v.as_str()).ok_or("bad probe")?;
+    probes.push((m.to_string(), i.to_string()));
+  }
+  Ok(Alphabet { defs, info, probes })
+}
+
+/// Applies one operation; Ok(None) = operation returned Ok / unit, Ok(Some(text)) = operation
+/// returned Err(text), Err(panic record) = operation panicked.
+fn apply(ws: &mut Workspace, alphabet: &Alphabet, op: &Op) -> Result<Option<String>, J> {
+  let r = catch_unwind(AssertUnwindSafe(|| match op {
+    Op::Add(k) => ws.add(alphabet.defs[*k].clone()).err().map(|e| e.to_string()),
+    Op::Replace(k) => ws.replace(alphabet.defs[*k].clone()).err().map(|e| e.to_string()),
+    Op::Remove(ns, name) => {
+      ws.remove(ns, name);
+      None
+    }
+    Op::Clear => {
+      ws.clear();
+      None
+    }
+    Op::Deploy => ws.deploy().err().map(|e| e.to_string()),
+  }));
+  r.map_err(|_| take_panic())
+}
+
+fn probe(ws: &Workspace, alphabet: &Alphabet) -> Result<J, J> {
+  let ctx = FeelContext::default();
+  let mut out = vec![];
+  for (m, i) in &alphabet.probes {
+    match catch_unwind(AssertUnwindSafe(|| ws.evaluate_invocable(m, i, &ctx))) {
+      Ok(Ok(v)) => out.push(json!({"ok": v.to_string()})),
+      Ok(Err(e)) => out.push(json!({"err": e.to_string()})),
+      Err(_) => return Err(take_panic()),
+    }
+  }
+  Ok(J::Array(out))
+}
+
+type Snap = (Vec<(String, String)>, Vec<String>, Vec<String>, Vec<String>);
+
+fn snap_json(s: &Snap) -> J {
+  json!([s.0.iter().map(|(a, b)| json!([a, b])).collect::<Vec<J>>(), s.1, s.2, s.3])
+}
+
+/// Pure structural predicate on a snapshot: the two indexes have exactly the namespaces / names of
+/// the list and the list repeats none. Used ONLY to decide whether the walk expands a state.
+fn consistent(s: &Snap) -> bool {
+  let mut ns: Vec<String> = s.0.iter().map(|d| d.0.clone()).collect();
+  let mut names: Vec<String> = s.0.iter().map(|d| d.1.clone()).collect();
+  ns.sort();
+  names.sort();
+  let unique = |v: &Vec<String>| v.windows(2).all(|w| w[0] != w[1]);
+  unique(&ns) && unique(&names) && ns == s.1 && names == s.2
+}
+
+fn observe(ws: &Workspace, alphabet: &Alphabet, r: &Option<String>) -> J {
+  let snap = ws.verif_snapshot();
+  match probe(ws, alphabet) {
+    Ok(p) => json!({"r": r, "s": snap_json(&snap), "p": p}),
+    Err(panic) => json!({"r": r, "s": snap_json(&snap), "panic": panic, "stage": "probe"}),
+  }
+}
+
+/// Replays `ops` on a fresh workspace; returns the observation after every step (stops at a panic).
+fn run_history(alphabet: &Alphabet, ops: &[&Op]) -> (Workspace, Vec<J>, bool) {
+  let mut ws = Workspace::new(None);
+  let mut steps = vec![];
+  for op in ops {
+    match apply(&mut ws, alphabet, op) {
+      Ok(r) => {
+        let o = observe(&ws, alphabet, &r);
+        let dead = o.get("panic").is_some();
+        steps.push(o);
+        if dead {
+          return (ws, steps, false);
+        }
+      }
+      Err(p) => {
+        steps.push(json!({"panic": p, "stage": "op"}));
+        return (ws, steps, false);
+      }
+    }
+  }
+  (ws, steps, true)
+}
+
+#[derive(Default)]
+struct Interner {
+  ids: HashMap<String, usize>,
+  tab: Vec<J>,
+}
+
+impl Interner {
+  fn put(&mut self, obs: J) -> usize {
+    let key = obs.to_string();
+    if let Some(id) = self.ids.get(&key) {
+      return *id;
+    }
+    let id = self.tab.len();
+    self.ids.insert(key, id);
+    self.tab.push(obs);
+    id
+  }
+}
+
+pub fn op_ws(case: &J) -> J {
+  let alphabet = match load_alphabet(case) {
+    Ok(a) => a,
+    Err(e) => return json!({ "harness_error": e }),
+  };
+  let n = alphabet.defs.len();
+  match case.get("mode").and_then(|v| v.as_str()).unwrap_or("history") {
+    "history" => {
+      let ops = match parse_ops(case.get("history"), n) {
+        Ok(o) => o,
+        Err(e) => return json!({ "harness_error": e }),
+      };
+      let refs: Vec<&Op> = ops.iter().collect();
+      let (_, steps, _) = run_history(&alphabet, &refs);
+      json!({"models": alphabet.info, "steps": steps})
+    }
+    "batch" => {
+      let ops = match parse_ops(case.get("ops"), n) {
+        Ok(o) => o,
+        Err(e) => return json!({ "harness_error": e }),
+      };
+      let empty = vec![];
+      let mut tab = Interner::default();
+      let mut runs: Vec<Vec<usize>> = vec![];
+      for h in case.get("histories").and_then(|v| v.as_array()).unwrap_or(&empty) {
+        let mut refs: Vec<&Op> = vec![];
+        for k in h.as_array().unwrap_or(&empty) {
+          match k.as_u64() {
+            Some(k) if (k as usize) < ops.len() => refs.push(&ops[k as usize]),
+            _ => return json!({"harness_error": "bad history index"}),
+          }
+        }
+        let (_, steps, _) = run_history(&alphabet, &refs);
+        runs.push(steps.into_iter().map(|o| tab.put(o)).collect());
+      }
+      json!({"models": alphabet.info, "otab": tab.tab, "runs": runs})
+    }
+    "enum" => {
+      let ops = match parse_ops(case.get("ops"), n) {
+        Ok(o) => o,
+        Err(e) => return json!({ "harness_error": e }),
+      };
+      let empty = vec![];
+      let mut prefix: Vec<usize> = vec![];
+      for p in case.get("prefix").and_then(|v| v.as_array()).unwrap_or(&empty) {
+        match p.as_u64() {
+          Some(k) if (k as usize) < ops.len() => prefix.push(k as usize),
+          _ => return json!({"harness_error": "bad prefix index"}),
+        }
+      }
+      let depth = case.get("depth").and_then(|v| v.as_u64()).unwrap_or(1) as usize;
+      let prefix_ops: Vec<&Op> = prefix.iter().map(|k| &ops[*k]).collect();
+      let (_, prefix_obs, alive) = run_history(&alphabet, &prefix_ops);
+      let mut tab = Interner::default();
+      let prefix_steps: Vec<usize> = prefix_obs.into_iter().map(|o| tab.put(o)).collect();
+      let mut nodes: Vec<usize> = vec![];
+      if alive && depth > 0 {
+        // depth-first pre-order over all extensions; every node replayed from scratch
+        let mut ext: Vec<usize> = vec![0];
+        loop {
+          // observe current extension
+          let mut ws = Workspace::new(None);
+          let mut dead = false;
+          for k in prefix.iter().chain(ext[..ext.len() - 1].iter()) {
+            if apply(&mut ws, &alphabet, &ops[*k]).is_err() {
+              dead = true;
+              break;
+            }
+          }
+          let last = *ext.last().unwrap();
+          let obs = if dead {
+            json!({"panic": {"msg": "replay of an already observed prefix panicked"}, "stage": "replay"})
+          } else {
+            match apply(&mut ws, &alphabet, &ops[last]) {
+              Ok(r) => observe(&ws, &alphabet, &r),
+              Err(p) => json!({"panic": p, "stage": "op"}),
+            }
+          };
+          let node_dead = obs.get("panic").is_some();
+          nodes.push(ext.len());
+          nodes.push(last);
+          nodes.push(tab.put(obs));
+          // advance
+          if ext.len() < depth && !node_dead {
+            ext.push(0);
+          } else {
+            loop {
+              let l = ext.len() - 1;
+              ext[l] += 1;
+              if ext[l] < ops.len() {
+                break;
+              }
+              ext.pop();
+              if ext.is_empty() {
+                break;
+              }
+            }
+            if ext.is_empty() {
+              break;
+            }
+          }
+        }
+      }
+      json!({"models": alphabet.info, "otab": tab.tab, "prefix_steps": prefix_steps, "nodes": nodes})
+    }
+    other => json!({"harness_error": format!("unknown ws mode '{}'", other)}),
+  }
+}
+
+pub fn op_wsbfs(case: &J) -> J {
+  let alphabet = match load_alphabet(case) {
+    Ok(a) => a,
+    Err(e) => return json!({ "harness_error": e }),
+  };
+  let ops = match parse_ops(case.get("ops"), alphabet.defs.len()) {
+    Ok(o) => o,
+    Err(e) => return json!({ "harness_error": e }),
+  };
+  let max_states = case.get("max_states").and_then(|v| v.as_u64()).unwrap_or(20000) as usize;
+  let expand_inconsistent = case.get("expand_inconsistent").and_then(|v| v.as_bool()).unwrap_or(false);
+  // state identity = snapshot + probes + probes after an additional deploy (content of the list)
+  let mut ids: HashMap<String, usize> = HashMap::new();
+  let mut states: Vec<J> = vec![];
+  let mut histories: Vec<Vec<usize>> = vec![];
+  let mut trans: Vec<J> = vec![];
+  let mut queue: VecDeque<usize> = VecDeque::new();
+  let mut expanded: HashSet<usize> = HashSet::new();
+  let mut closed = true;
+
+  // observes the state reached by `h` (replayed on a fresh workspace) after applying `extra`
+  let reach = |h: &[usize], extra: Option<usize>| -> Result<(Option<String>, J, bool), J> {
+    let mut ws = Workspace::new(None);
+    for k in h {
+      apply(&mut ws, &alphabet, &ops[*k])?;
+    }
+    let r = match extra {
+      Some(k) => apply(&mut ws, &alphabet, &ops[k])?,
+      None => None,
+    };
+    let snap = ws.verif_snapshot();
+    let p = probe(&ws, &alphabet)?;
+    let ok = consistent(&snap);
+    // content of the stored list, made visible by deploying this (throw-away) workspace
+    apply(&mut ws, &alphabet, &Op::Deploy)?;
+    let t = probe(&ws, &alphabet)?;
+    Ok((r, json!({"s": snap_json(&snap), "p": p, "t": t}), ok))
+  };
+
+  let mut intern = |obs: J, ok: bool, h: Vec<usize>, states: &mut Vec<J>, histories: &mut Vec<Vec<usize>>, queue: &mut VecDeque<usize>| -> usize {
+    let key = obs.to_string();
+    if let Some(id) = ids.get(&key) {
+      return *id;
+    }
+    let id = states.len();
+    ids.insert(key, id);
+    let mut st = obs;
+    st["h"] = json!(h);
+    st["consistent"] = json!(ok);
+    states.push(st);
+    histories.push(h);
+    queue.push_back(id);
+    id
+  };
+
+  match reach(&[], None) {
+    Ok((_, obs, ok)) => {
+      intern(obs, ok, vec![], &mut states, &mut histories, &mut queue);
+    }
+    Err(p) => return json!({"panic": p, "stage": "initial"}),
+  }
+  while let Some(id) = queue.pop_front() {
+    let ok = states[id]["consistent"].as_bool().unwrap_or(false);
+    if !ok && !expand_inconsistent {
+      continue;
+    }
+    if states.len() >= max_states {
+      closed = false;
+      break;
+    }
+    expanded.insert(id);
+    let h = histories[id].clone();
+    for k in 0..ops.len() {
+      match reach(&h, Some(k)) {
+        Ok((r, obs, ok2)) => {
+          let mut h2 = h.clone();
+          h2.push(k);
+          let to = intern(obs, ok2, h2, &mut states, &mut histories, &mut queue);
+          trans.push(json!([id, k, r, to]));
+        }
+        Err(p) => {
+          trans.push(json!([id, k, {"panic": p}, J::Null]));
+        }
+      }
+    }
+  }
+  for (id, st) in states.iter_mut().enumerate() {
+    st["expanded"] = json!(expanded.contains(&id));
+  }
+  json!({"models": alphabet.info, "states": states, "trans": trans, "closed": closed})
 }
